@@ -417,6 +417,10 @@ def driveLocks (toks : List String) : String :=
     let missing := Locks.programEdges.filter (fun e => !seen.contains (name e.1 ++ ">" ++ name e.2))
     if missing.isEmpty then "R ok"
     else "R nesting-of-the-model-not-observed " ++ ",".intercalate (missing.map (fun e => name e.1 ++ ">" ++ name e.2))
+  | ["worker-after-shutdown", state] =>
+    -- Layer A `WorkerMode.draining` / Layer B `WPc.drain` have no step that ends the worker: it answers every later
+    -- command with ShuttingDown for as long as the cache lives
+    if state == "alive" then "R ok" else "R the-worker-ended-while-the-cache-is-alive"
   | ["repeat", point, cls] =>
     if Locks.repeatAllowed.contains (point, cls) then "R ok" else "R lock-instance-acquired-twice-within-one-action"
   | ["tries", observed] =>
